@@ -1,6 +1,7 @@
 package beaconblock
 
 import (
+	"fmt"
 	"math/rand"
 
 	"github.com/protolambda/ztyp/tree"
@@ -404,6 +405,161 @@ func stateVariants(c *chain.Chain, spec *common.Spec, s *chain.Step, fs *flat.St
 		out = append(out, stateVariant{"pre-state:withdrawal-cursor-moved", "withdrawals.mismatch", g, nil})
 	}
 	return out
+}
+
+// overLimitMutants: the step's block with one list of operations extended to MAX_x + 1 operations that are ALL valid
+// and effective (distinct, untouched, slashable / exitable validators; correct signatures; duplicated attestations,
+// which the specification accepts), so that the list limit is the ONLY reason to refuse the block — a limit check
+// that compares with the constant of another operation kind lets it through. Such a block exists through the typed
+// API only (SSZ decoding enforces the list limits itself).
+func overLimitMutants(c *chain.Chain, s *chain.Step, fs *flat.State, rng *rand.Rand) []chain.Mutant {
+	var out []chain.Mutant
+	spec := c.Spec
+	cur := fs.Slot / uint64(spec.SLOTS_PER_EPOCH)
+	body0 := s.Block.Body()
+	touched := map[common.ValidatorIndex]bool{s.Proposer: true}
+	for _, ps := range *body0.ProposerSlashings {
+		touched[ps.SignedHeader1.Message.ProposerIndex] = true
+	}
+	for _, as := range *body0.AttesterSlashings {
+		for _, v := range as.Attestation1.AttestingIndices {
+			touched[v] = true
+		}
+		for _, v := range as.Attestation2.AttestingIndices {
+			touched[v] = true
+		}
+	}
+	for _, ex := range *body0.VoluntaryExits {
+		touched[ex.Message.ValidatorIndex] = true
+	}
+	// validators nothing in the block concerns: active, not exiting, not slashed, old enough to exit, key known
+	type cand struct {
+		v common.ValidatorIndex
+		k int
+	}
+	var free []cand
+	for i := range fs.Validators {
+		f := &fs.Validators[i]
+		v := common.ValidatorIndex(i)
+		if touched[v] || f.Slashed || f.ActivationEpoch > cur || f.ExitEpoch != ^uint64(0) || cur < f.ActivationEpoch+uint64(spec.SHARD_COMMITTEE_PERIOD) {
+			continue
+		}
+		if k, ok := c.KeyOf(v); ok {
+			free = append(free, cand{v, k})
+		}
+	}
+	rng.Shuffle(len(free), func(i, j int) { free[i], free[j] = free[j], free[i] })
+	// never use up more than a quarter of the registry
+	if m := len(fs.Validators) / 4; len(free) > m {
+		free = free[:m]
+	}
+	add := func(label, rule string, f func(b *chain.SignedBlock, body chain.BodyRef) bool) {
+		b := s.Block.Clone(spec)
+		if !f(b, b.Body()) {
+			return
+		}
+		c.SignBlock(b, s.PreBlock)
+		out = append(out, chain.Mutant{Label: label, Rule: rule, Resigned: true, Block: b})
+	}
+	root := func(x byte) (r common.Root) {
+		r[0], r[1], r[31] = 0xee, x, byte(fs.Slot)
+		return
+	}
+	add("proposer_slashings:max+1-all-valid", "limits.proposer_slashings", func(b *chain.SignedBlock, body chain.BodyRef) bool {
+		need := int(spec.MAX_PROPOSER_SLASHINGS) + 1 - len(*body.ProposerSlashings)
+		if need <= 0 || need > len(free) {
+			return false
+		}
+		for _, x := range free[:need] {
+			h1 := common.BeaconBlockHeader{Slot: common.Slot(fs.Slot), ProposerIndex: x.v, ParentRoot: root(1), StateRoot: root(2), BodyRoot: root(3)}
+			h2 := h1
+			h2.BodyRoot = root(4)
+			*body.ProposerSlashings = append(*body.ProposerSlashings, phase0.ProposerSlashing{
+				SignedHeader1: c.SignHeader(s.PreBlock, h1, x.k), SignedHeader2: c.SignHeader(s.PreBlock, h2, x.k)})
+		}
+		return true
+	})
+	add("attester_slashings:max+1-all-valid", "limits.attester_slashings", func(b *chain.SignedBlock, body chain.BodyRef) bool {
+		need := int(spec.MAX_ATTESTER_SLASHINGS) + 1 - len(*body.AttesterSlashings)
+		if need <= 0 || need > len(free) {
+			return false
+		}
+		for _, x := range free[:need] {
+			// a double vote of validator x.v alone: same target epoch, different block roots
+			d1 := phase0.AttestationData{Slot: common.Slot(fs.Slot), Index: 0, BeaconBlockRoot: root(5),
+				Source: common.Checkpoint{Epoch: 0, Root: root(6)}, Target: common.Checkpoint{Epoch: common.Epoch(cur), Root: root(7)}}
+			d2 := d1
+			d2.BeaconBlockRoot = root(8)
+			who := []common.ValidatorIndex{x.v}
+			*body.AttesterSlashings = append(*body.AttesterSlashings, phase0.AttesterSlashing{
+				Attestation1: phase0.IndexedAttestation{AttestingIndices: who, Data: d1, Signature: c.SignIndexed(s.PreBlock, &d1, who)},
+				Attestation2: phase0.IndexedAttestation{AttestingIndices: who, Data: d2, Signature: c.SignIndexed(s.PreBlock, &d2, who)}})
+		}
+		return true
+	})
+	add("voluntary_exits:max+1-all-valid", "limits.voluntary_exits", func(b *chain.SignedBlock, body chain.BodyRef) bool {
+		need := int(spec.MAX_VOLUNTARY_EXITS) + 1 - len(*body.VoluntaryExits)
+		if need <= 0 || need > len(free) {
+			return false
+		}
+		for _, x := range free[:need] {
+			*body.VoluntaryExits = append(*body.VoluntaryExits, c.SignExit(s.PreBlock, phase0.VoluntaryExit{Epoch: common.Epoch(cur), ValidatorIndex: x.v}, x.k))
+		}
+		return true
+	})
+	if n := len(*body0.Attestations); n > 0 && uint64(spec.MAX_ATTESTATIONS) <= 40 {
+		add("attestations:max+1-all-valid(duplicates)", "limits.attestations", func(b *chain.SignedBlock, body chain.BodyRef) bool {
+			for i := 0; uint64(len(*body.Attestations)) <= uint64(spec.MAX_ATTESTATIONS); i++ {
+				*body.Attestations = append(*body.Attestations, (*body.Attestations)[i%n])
+			}
+			return true
+		})
+	}
+	if body0.BLSChanges != nil {
+		add("bls_to_execution_changes:max+1-all-valid", "limits.bls_changes", func(b *chain.SignedBlock, body chain.BodyRef) bool {
+			has := map[common.ValidatorIndex]bool{}
+			for _, ch := range *body.BLSChanges {
+				has[ch.BLSToExecutionChange.ValidatorIndex] = true
+			}
+			for i := range fs.Validators {
+				if uint64(len(*body.BLSChanges)) > uint64(spec.MAX_BLS_TO_EXECUTION_CHANGES) {
+					break
+				}
+				v := common.ValidatorIndex(i)
+				k, ok := c.KeyOf(v)
+				if !ok || has[v] || fs.Validators[i].WithdrawalCredentials[0] != 0 || fs.Validators[i].WithdrawalCredentials != [32]byte(c.Keys.BLSCredentials(k)) {
+					continue
+				}
+				ch := common.BLSToExecutionChange{ValidatorIndex: v, FromBLSPubKey: c.Keys.WithdrawalPubkey(k), ToExecutionAddress: c.Keys.ExecutionAddress(k)}
+				*body.BLSChanges = append(*body.BLSChanges, c.SignBLSChange(ch, k))
+			}
+			return uint64(len(*body.BLSChanges)) > uint64(spec.MAX_BLS_TO_EXECUTION_CHANGES)
+		})
+	}
+	return out
+}
+
+// validEdits: the step's block with a payload field moved to a boundary of its type, still valid (the state root is
+// re-computed and the block signed again by the caller): extra_data of 0, MAX_EXTRA_DATA_BYTES − 1 and exactly
+// MAX_EXTRA_DATA_BYTES bytes.
+func validEdits(c *chain.Chain, s *chain.Step) (out []blockVariant) {
+	if s.Block.Body().Payload == nil {
+		return nil
+	}
+	max := int(c.Spec.MAX_EXTRA_DATA_BYTES)
+	n := []int{max, max - 1, 0}[int(s.Slot)%3]
+	b := s.Block.Clone(c.Spec)
+	ed := make(common.ExtraData, n)
+	for i := range ed {
+		ed[i] = byte(0x40 + i)
+	}
+	*b.Body().Payload.ExtraData = ed
+	c.SignBlock(b, s.PreBlock) // valid signature even where the real code cannot produce the post-state (the caller heals the state root)
+	label := fmt.Sprintf("payload.extra_data:%d-bytes(valid)", n)
+	if n == max {
+		label = fmt.Sprintf("payload.extra_data:exactly-the-limit-%d-bytes(valid)", n)
+	}
+	return []blockVariant{{label, "valid", nil, b}}
 }
 
 // blockVariant: a pre-state variant together with the block to run on it (nil: the step's block).
